@@ -484,7 +484,7 @@ fn replay_case(ctx: &Ctx, path: &std::path::Path) -> i32 {
 }
 
 pub fn run(ctx: &Ctx) -> i32 {
-    std::panic::set_hook(Box::new(|_| {}));
+    crate::common::report::quiet_panics();
     if let Some(p) = &ctx.replay {
         return replay_case(ctx, p);
     }
